@@ -49,12 +49,14 @@ Inductive cev :=
 | CRet (r : nat) (c : Z)                  (* the submitting call for request r returned c *)
 | CCb (r : nat) (status : Z) (src : csrc) (* connect_cb(r, status); where the status came from *)
 | CLost (r : nat)                         (* connect_req overwritten while r was pending *)
-| CClosed.                                (* close_cb *)
+| CClosed                                 (* close_cb *)
+| CReg (n : nat).                         (* loop->active_reqs.count observed after an operation *)
 
 Inductive cop :=
 | CTcp                                        (* uv_tcp_connect, valid AF_INET address *)
 | CBindBusy                                   (* uv_tcp_bind to an address in use: returns 0,
                                                  leaves delayed_error = UV_EADDRINUSE *)
+| CBind                                       (* uv_tcp_bind to 127.0.0.1:0: creates the socket *)
 | CPipe (namelen : nat)                       (* uv_pipe_connect(name), namelen = strlen(name) *)
 | CPipe2 (flags : Z) (namelen : nat) (nul : bool)   (* uv_pipe_connect2 *)
 | CClose
@@ -71,8 +73,10 @@ Record cst := mkCs {
   cs : cstream; co : corc; nreq : nat; ccbn : nat;
   cchain : list nat;      (* variant [cpfix] only: requests of uv_pipe_connect calls made while a
                              connect was pending, linked on connect_req->queue, in call order *)
-  cpfix : bool            (* false: the current code.  true: the code with
+  cpfix : bool;           (* false: the current code.  true: the code with
                              notes/C07_fix_pipe_connect_ealready.diff *)
+  creg : nat              (* loop->active_reqs.count as far as this handle's requests go:
+                             +1 at every uv__req_init, -1 at every uv__req_unregister *)
 }.
 
 Definition next_z (l : list Z) : Z * list Z := match l with [] => (0, []) | a :: r => (a, r) end.
@@ -85,21 +89,21 @@ Fixpoint connect_loop (l : list Z) : Z * list Z :=
   | a :: r => if a =? UV_EINTR then connect_loop r else (a, r)
   end.
 
-Definition upd_s (x : cst) (s : cstream) : cst := mkCs s (co x) (nreq x) (ccbn x) (cchain x) (cpfix x).
+Definition upd_s (x : cst) (s : cstream) : cst := mkCs s (co x) (nreq x) (ccbn x) (cchain x) (cpfix x) (creg x).
 
 Definition tcp_connect (x : cst) : cst * list cev :=
   let s := cs x in let r := nreq x in
   let out (s : cstream) (o : corc) :=
       (mkCs (mkC (c_tcp s) (c_fd s) (Some r) (c_delayed s) true
                  (if c_delayed s =? 0 then c_fed s else true) (c_closing s) (c_closed s))
-            o (S r) (ccbn x) (cchain x) (cpfix x), [CRet r 0]) in
+            o (S r) (ccbn x) (cchain x) (cpfix x) (S (creg x)), [CRet r 0]) in
   match c_req s with
-  | Some _ => (mkCs s (co x) (S r) (ccbn x) (cchain x) (cpfix x), [CRet r UV_EALREADY])
+  | Some _ => (mkCs s (co x) (S r) (ccbn x) (cchain x) (cpfix x) (creg x), [CRet r UV_EALREADY])
   | None =>
     if negb (c_delayed s =? 0) then out s (co x) else
     let '(serr, so') := if c_fd s then (0, o_sock (co x)) else next_z (o_sock (co x)) in
     if negb (serr =? 0) then
-      (mkCs s (mkO so' (o_conn (co x)) (o_so (co x)) (o_ready (co x))) (S r) (ccbn x) (cchain x) (cpfix x), [CRet r serr])
+      (mkCs s (mkO so' (o_conn (co x)) (o_so (co x)) (o_ready (co x))) (S r) (ccbn x) (cchain x) (cpfix x) (creg x), [CRet r serr])
     else
       let s1 := mkC (c_tcp s) true (c_req s) (c_delayed s) (c_pollout s) (c_fed s) (c_closing s) (c_closed s) in
       let (a, cn') := connect_loop (o_conn (co x)) in
@@ -107,16 +111,16 @@ Definition tcp_connect (x : cst) : cst * list cev :=
       if (a =? 0) || (a =? UV_EINPROGRESS) then out s1 o'
       else if a =? UV_ECONNREFUSED then
         out (mkC (c_tcp s1) true (c_req s1) UV_ECONNREFUSED (c_pollout s1) (c_fed s1) (c_closing s1) (c_closed s1)) o'
-      else (mkCs s1 o' (S r) (ccbn x) (cchain x) (cpfix x), [CRet r a])
+      else (mkCs s1 o' (S r) (ccbn x) (cchain x) (cpfix x) (creg x), [CRet r a])
   end.
 
-Definition bind_busy (x : cst) : cst * list cev :=
+Definition bind_busy (busy : bool) (x : cst) : cst * list cev :=
   let s := cs x in
   let '(serr, so') := if c_fd s then (0, o_sock (co x)) else next_z (o_sock (co x)) in
   let o' := mkO so' (o_conn (co x)) (o_so (co x)) (o_ready (co x)) in
-  if negb (serr =? 0) then (mkCs s o' (nreq x) (ccbn x) (cchain x) (cpfix x), [])
-  else (mkCs (mkC (c_tcp s) true (c_req s) UV_EADDRINUSE (c_pollout s) (c_fed s) (c_closing s) (c_closed s))
-             o' (nreq x) (ccbn x) (cchain x) (cpfix x), []).
+  if negb (serr =? 0) then (mkCs s o' (nreq x) (ccbn x) (cchain x) (cpfix x) (creg x), [])
+  else (mkCs (mkC (c_tcp s) true (c_req s) (if busy then UV_EADDRINUSE else 0) (c_pollout s) (c_fed s) (c_closing s) (c_closed s))
+             o' (nreq x) (ccbn x) (cchain x) (cpfix x) (creg x), []).
 
 (* the part of uv_pipe_connect2 after "out:" and the error branch of uv_pipe_connect:
    delayed_error = err; connect_req = req; feed when err != 0 *)
@@ -137,28 +141,28 @@ Definition pipe_connect2_body (x : cst) (flags : Z) (namelen : nat) (nul : bool)
   let '(serr, so') := if new_sock then next_z (o_sock (co x)) else (0, o_sock (co x)) in
   if serr <? 0 then
     let (s', e) := pipe_out s r serr in
-    (mkCs s' (mkO so' (o_conn (co x)) (o_so (co x)) (o_ready (co x))) (nreq x) (ccbn x) (cchain x) (cpfix x), e, None)
+    (mkCs s' (mkO so' (o_conn (co x)) (o_so (co x)) (o_ready (co x))) (nreq x) (ccbn x) (cchain x) (cpfix x) (S (creg x)), e, None)
   else
     let s1 := mkC (c_tcp s) true (c_req s) (c_delayed s) (c_pollout s) (c_fed s) (c_closing s) (c_closed s) in
     let (a, cn') := connect_loop (o_conn (co x)) in
     let o' := mkO so' cn' (o_so (co x)) (o_ready (co x)) in
     if (a =? 0) || (a =? UV_EINPROGRESS) then
       let s2 := mkC (c_tcp s1) true (c_req s1) (c_delayed s1) true (c_fed s1) (c_closing s1) (c_closed s1) in
-      let (s', e) := pipe_out s2 r 0 in (mkCs s' o' (nreq x) (ccbn x) (cchain x) (cpfix x), e, None)
+      let (s', e) := pipe_out s2 r 0 in (mkCs s' o' (nreq x) (ccbn x) (cchain x) (cpfix x) (S (creg x)), e, None)
     else
-      let (s', e) := pipe_out s1 r a in (mkCs s' o' (nreq x) (ccbn x) (cchain x) (cpfix x), e, None).
+      let (s', e) := pipe_out s1 r a in (mkCs s' o' (nreq x) (ccbn x) (cchain x) (cpfix x) (S (creg x)), e, None).
 
 Definition pending (s : cstream) : bool := match c_req s with Some _ => true | None => false end.
 
 Definition pipe_connect2 (x : cst) (flags : Z) (namelen : nat) (nul : bool) : cst * list cev :=
   let r := nreq x in
   if cpfix x && pending (cs x) then      (* fix: if (handle->connect_req != NULL) return UV_EALREADY; *)
-    (mkCs (cs x) (co x) (S r) (ccbn x) (cchain x) (cpfix x), [CRet r UV_EALREADY])
+    (mkCs (cs x) (co x) (S r) (ccbn x) (cchain x) (cpfix x) (creg x), [CRet r UV_EALREADY])
   else
   let '(x', e, res) := pipe_connect2_body x flags namelen nul in
   match res with
-  | Some err => (mkCs (cs x') (co x') (S r) (ccbn x') (cchain x') (cpfix x'), e ++ [CRet r err])
-  | None => (mkCs (cs x') (co x') (S r) (ccbn x') (cchain x') (cpfix x'), e ++ [CRet r 0])
+  | Some err => (mkCs (cs x') (co x') (S r) (ccbn x') (cchain x') (cpfix x') (creg x'), e ++ [CRet r err])
+  | None => (mkCs (cs x') (co x') (S r) (ccbn x') (cchain x') (cpfix x') (creg x'), e ++ [CRet r 0])
   end.
 
 (* void uv_pipe_connect: an error return of uv_pipe_connect2 becomes a delayed error *)
@@ -166,13 +170,13 @@ Definition pipe_connect (x : cst) (namelen : nat) : cst * list cev :=
   let r := nreq x in
   if cpfix x && pending (cs x) then      (* fix: UV_EALREADY from uv_pipe_connect2; the request is linked
                                             behind the pending one and told later *)
-    (mkCs (cs x) (co x) (S r) (ccbn x) (cchain x ++ [r]) (cpfix x), [CRet r 0])
+    (mkCs (cs x) (co x) (S r) (ccbn x) (cchain x ++ [r]) (cpfix x) (S (creg x)), [CRet r 0])
   else
   let '(x', e, res) := pipe_connect2_body x 0 namelen false in
   match res with
   | Some err => let (s', e') := pipe_out (cs x') r err in
-                (mkCs s' (co x') (S r) (ccbn x') (cchain x') (cpfix x'), e ++ e' ++ [CRet r 0])
-  | None => (mkCs (cs x') (co x') (S r) (ccbn x') (cchain x') (cpfix x'), e ++ [CRet r 0])
+                (mkCs s' (co x') (S r) (ccbn x') (cchain x') (cpfix x') (S (creg x')), e ++ e' ++ [CRet r 0])
+  | None => (mkCs (cs x') (co x') (S r) (ccbn x') (cchain x') (cpfix x') (creg x'), e ++ [CRet r 0])
   end.
 
 (* uv_close on the stream: uv__io_close (stop, leave the pending queue), descriptor closed *)
@@ -191,7 +195,8 @@ Definition cexec_simple (x : cst) (o : cop) : cst * list cev :=
     if c_closing (cs x) then (x, []) else
     match o with
     | CTcp => if c_tcp (cs x) then tcp_connect x else (x, [])
-    | CBindBusy => if c_tcp (cs x) then bind_busy x else (x, [])
+    | CBindBusy => if c_tcp (cs x) then bind_busy true x else (x, [])
+    | CBind => if c_tcp (cs x) then bind_busy false x else (x, [])
     | CPipe n => if c_tcp (cs x) then (x, []) else pipe_connect x n
     | CPipe2 f n z => if c_tcp (cs x) then (x, []) else pipe_connect2 x f n z
     | _ => (x, [])
@@ -202,18 +207,18 @@ Fixpoint cexec_cb (x : cst) (os : list cop) : cst * list cev :=
   match os with
   | [] => (x, [])
   | o :: r => let (x1, e1) := cexec_simple x o in
-              let (x2, e2) := cexec_cb x1 r in (x2, e1 ++ e2)
+              let (x2, e2) := cexec_cb x1 r in (x2, e1 ++ CReg (creg x1) :: e2)
   end.
 
 Definition run_cb (x : cst) (beh : nat -> list cop) : cst * list cev :=
-  cexec_cb (mkCs (cs x) (co x) (nreq x) (S (ccbn x)) (cchain x) (cpfix x)) (beh (ccbn x)).
+  cexec_cb (mkCs (cs x) (co x) (nreq x) (S (ccbn x)) (cchain x) (cpfix x) (creg x)) (beh (ccbn x)).
 
 (* variant [cpfix]: the requests that were linked behind the completed one get their
    callback (UV_EALREADY, or UV_ECANCELED when the handle is destroyed), in call order *)
 Fixpoint reject (ch : list nat) (st : Z) (src : csrc) (x : cst) (beh : nat -> list cop) : cst * list cev :=
   match ch with
   | [] => (x, [])
-  | q :: t => let (x1, e1) := run_cb x beh in
+  | q :: t => let (x1, e1) := run_cb (mkCs (cs x) (co x) (nreq x) (ccbn x) (cchain x) (cpfix x) (pred (creg x))) beh in
               let (x2, e2) := reject t st src x1 beh in (x2, CCb q st src :: e1 ++ e2)
   end.
 
@@ -230,10 +235,10 @@ Definition stream_connect (x : cst) (beh : nat -> list cop) : cst * list cev :=
       else
         let (e, so') := next_z (o_so (co x)) in
         (e, SrcSo, s, mkO (o_sock (co x)) (o_conn (co x)) so' (o_ready (co x))) in
-    if error =? UV_EINPROGRESS then (mkCs s1 o' (nreq x) (ccbn x) (cchain x) (cpfix x), [])
+    if error =? UV_EINPROGRESS then (mkCs s1 o' (nreq x) (ccbn x) (cchain x) (cpfix x) (creg x), [])
     else
       let s2 := mkC (c_tcp s1) (c_fd s1) None (c_delayed s1) false (c_fed s1) (c_closing s1) (c_closed s1) in
-      let (x1, e1) := run_cb (mkCs s2 o' (nreq x) (ccbn x) [] (cpfix x)) beh in
+      let (x1, e1) := run_cb (mkCs s2 o' (nreq x) (ccbn x) [] (cpfix x) (pred (creg x))) beh in
       let (x2, e2) := reject (cchain x) UV_EALREADY SrcRejected x1 beh in
       (x2, CCb r error src :: e1 ++ e2)
   end.
@@ -268,7 +273,7 @@ Definition destroy (x : cst) (beh : nat -> list cop) : cst * list cev :=
   let s := cs x in
   let s1 := mkC (c_tcp s) (c_fd s) None (c_delayed s) (c_pollout s) (c_fed s) true true in
   match c_req s with
-  | Some r => let (x1, e1) := run_cb (mkCs s1 (co x) (nreq x) (ccbn x) [] (cpfix x)) beh in
+  | Some r => let (x1, e1) := run_cb (mkCs s1 (co x) (nreq x) (ccbn x) [] (cpfix x) (pred (creg x))) beh in
               let (x2, e2) := reject (cchain x) UV_ECANCELED SrcCancel x1 beh in
               (x2, CCb r UV_ECANCELED SrcCancel :: e1 ++ e2 ++ [CClosed])
   | None => (upd_s x s1, [CClosed])
@@ -276,7 +281,7 @@ Definition destroy (x : cst) (beh : nat -> list cop) : cst * list cev :=
 
 Definition run_iter (x : cst) (beh : nat -> list cop) : cst * list cev :=
   let (rdy, rd') := next_b (o_ready (co x)) in
-  let x0 := mkCs (cs x) (mkO (o_sock (co x)) (o_conn (co x)) (o_so (co x)) rd') (nreq x) (ccbn x) (cchain x) (cpfix x) in
+  let x0 := mkCs (cs x) (mkO (o_sock (co x)) (o_conn (co x)) (o_so (co x)) rd') (nreq x) (ccbn x) (cchain x) (cpfix x) (creg x) in
   let (x1, e1) := run_pending x0 beh in
   let (x2, e2) := if c_pollout (cs x1) && rdy && negb (c_closing (cs x1))
                   then stream_io x1 beh else (x1, []) in
@@ -294,11 +299,11 @@ Fixpoint crun (x : cst) (os : list cop) (beh : nat -> list cop) : cst * list cev
   match os with
   | [] => (x, [])
   | o :: r => let (x1, e1) := cstep x o beh in
-              let (x2, e2) := crun x1 r beh in (x2, e1 ++ e2)
+              let (x2, e2) := crun x1 r beh in (x2, e1 ++ CReg (creg x1) :: e2)
   end.
 
 Definition cinit (pfix : bool) (tcp : bool) (o : corc) : cst :=
-  mkCs (mkC tcp false None 0 false false false false) o 0 0 [] pfix.
+  mkCs (mkC tcp false None 0 false false false false) o 0 0 [] pfix 0.
 
 (* ------------------------------------------------------------------ *)
 (* uv__check_before_write and its two callers *)
